@@ -191,6 +191,21 @@ impl RawHeader {
         h
     }
 
+    /// Permute the index entries without touching the store (the format does not prescribe an
+    /// order; rpm and this library's builder happen to sort by tag). A leading region entry
+    /// stays first. kind 0 = as is, 1 = reversed, 2 = first entry moved to the end.
+    pub fn reorder(&mut self, kind: u8) {
+        let start = if self.entries.first().map(|e| (e.tag == 62 || e.tag == 63) && e.ty == 7 && e.count == 16).unwrap_or(false) { 1 } else { 0 };
+        if self.entries.len() <= start + 1 {
+            return;
+        }
+        match kind {
+            1 => self.entries[start..].reverse(),
+            2 => self.entries[start..].rotate_left(1),
+            _ => {}
+        }
+    }
+
     pub fn encoded_len(&self) -> usize {
         16 + 16 * self.entries.len() + self.store.len()
     }
